@@ -63,3 +63,16 @@ pub fn c04_pok_prover_refuses(c: ProofCommitment, x: ProofCommitmentSecret, y: P
     let r = c.finalize(x, y, sig);
     assert(r is Err);
 }
+
+/// the zero scalar cannot be imported as a secret key from bytes (any of the importers)
+pub fn c04_zero_key_cannot_be_imported(zero32: &[u8; 32], bytes: &[u8])
+    requires all_zero(zero32@), all_zero(bytes@),
+{
+    proof { lemma_all_zero_reverse(zero32@); }
+    let a = SecretKey::from_be_bytes(zero32);
+    let b = SecretKey::from_le_bytes(zero32);
+    let c = SecretKey::try_from(bytes);
+    assert(!a.is_some_spec() && !b.is_some_spec());
+    proof { lemma_all_zero_reverse(bytes@); }
+    assert(c is Err);
+}
